@@ -339,6 +339,7 @@ class EigenSolve(Module):
     """
     def _prepare(self, sorting_func=lambda W, Q: np.argsort(W), hermitian=None, nmodes=None, sigma=None, mode='normal'):
         self.sorting_fn = sorting_func
+        self.hermitian = hermitian  # User-provided flag (None: detect automatically for every new matrix)
         self.is_hermitian = hermitian
         self.nmodes = nmodes
         self.sigma = sigma
@@ -349,7 +350,7 @@ class EigenSolve(Module):
 
     def _response(self, A, *args):
         B = args[0] if len(args) > 0 else None
-        if self.is_hermitian is None:
+        if self.hermitian is None:
             self.is_hermitian = (matrix_is_hermitian(A) and (B is None or matrix_is_hermitian(B)))
         self.is_sparse = matrix_is_sparse(A) and (B is None or matrix_is_sparse(B))
         self.adjoint_solvers_need_update = True
